@@ -20,6 +20,35 @@ def live_vectors(f):
     return f.derive(seeds, through_calls=True) if seeds else set()
 
 
+_SET_INSERT = re.compile(r"^std::collections::(HashSet|BTreeSet)::<&?value::Tuple(, .*)?>::insert$")
+
+
+def membership_tests(f, lv):
+    """tests that decide `is this tuple already stored`: (call, new_side_block, dup_side_block, tuple_operand)
+    - `live_vec.contains(&t)`                       : false -> new
+    - `seen.insert(t)` on a set seeded from live_vec : true  -> new (the set records the tuple, so later copies in the batch are caught)"""
+    out = []
+    for c in f.normal_calls():
+        sa = c.static_args or ""
+        if _CONTAINS.search(sa) and op_local(c.args[0]) in lv:
+            # the test must look at the whole (growing) vector, not a sub-slice
+            whole = True
+            for o in common.origins(f, op_local(c.args[0])):
+                for x in f.normal_calls():
+                    if x.dst["l"] == o and not proj(x.dst):
+                        xa = x.static_args or ""
+                        if "std::ops::Deref" not in xa and "std::ops::DerefMut" not in xa and "as_slice" not in xa:
+                            whole = False
+            br = common.branch_on_result(f, c)
+            if br and whole:
+                out.append((c, br[1], br[2], c.args[1] if len(c.args) > 1 else None))
+        elif _SET_INSERT.match(sa) and op_local(c.args[0]) in lv:
+            br = common.branch_on_result(f, c)
+            if br:
+                out.append((c, br[2], br[1], c.args[1] if len(c.args) > 1 else None))
+    return out
+
+
 def run(F, ctx):
     ctx.explanation = (
         "Decides: (a) the only place where a tuple is appended to a vector of the live relation map is dominated by the `absent` edge of a membership test of that same "
@@ -39,27 +68,13 @@ def run(F, ctx):
         if not lv:
             continue
         grows = [c for c in f.normal_calls() if _VEC_GROW.search(c.static_args or "") and op_local(c.args[0]) in lv]
-        conts = [c for c in f.normal_calls() if _CONTAINS.search(c.static_args or "") and op_local(c.args[0]) in lv]
+        tests = membership_tests(f, lv)
         for g in grows:
             n_push += 1
             ok = False
-            for c in conts:
-                br = common.branch_on_result(f, c)
-                if not br:
-                    continue
-                (sw, false_t, true_t) = br
-                same_tuple = len(g.args) > 1 and len(c.args) > 1 and bool(common.origins(f, op_local(g.args[1])) & common.origins(f, op_local(c.args[1])))
-                same_vec = bool(common.origins(f, op_local(g.args[0])) & common.origins(f, op_local(c.args[0]))) or True
-                # the test must look at the whole (growing) vector: its receiver comes from the vector by Deref only,
-                # not through a sub-slice (Index/get/split/..)
-                whole = True
-                for o in common.origins(f, op_local(c.args[0])):
-                    for x in f.normal_calls():
-                        if x.dst["l"] == o and not proj(x.dst):
-                            sa = x.static_args or ""
-                            if "std::ops::Deref" not in sa and "std::ops::DerefMut" not in sa and "as_slice" not in sa:
-                                whole = False
-                if f.dominates(false_t, g.bb) and not f.dominates(true_t, g.bb) and same_tuple and whole:
+            for (c, new_t, dup_t, targ) in tests:
+                same_tuple = len(g.args) > 1 and targ is not None and bool((common.origins(f, op_local(g.args[1])) | f.derive(common.origins(f, op_local(g.args[1])), through_calls=True)) & (common.origins(f, op_local(targ)) | f.derive(common.origins(f, op_local(targ)), through_calls=True)))
+                if f.dominates(new_t, g.bb) and not f.dominates(dup_t, g.bb) and same_tuple:
                     ok = True
             ctx.site("%s: %s on a live relation vector" % (n.split("::")[-1], re.search(r"(push|insert|append|extend\w*|resize|Extend)", g.static_args).group(1)), g.where(), ok=ok)
             if not ok:
@@ -102,11 +117,10 @@ def run(F, ctx):
     newc, dupc = f.need_local("new_count"), f.need_local("dup_count")
     lv = live_vectors(f)
     grows = [c for c in f.normal_calls() if _VEC_GROW.search(c.static_args or "") and op_local(c.args[0]) in lv]
-    conts = [c for c in f.normal_calls() if _CONTAINS.search(c.static_args or "") and op_local(c.args[0]) in lv]
-    ok = newc is not None and dupc is not None and bool(grows) and bool(conts)
+    tests = membership_tests(f, lv)
+    ok = newc is not None and dupc is not None and bool(grows) and bool(tests)
     if ok:
-        br = common.branch_on_result(f, conts[0])
-        (sw, false_t, true_t) = br
+        (_c, false_t, true_t, _t) = tests[0]   # false_t: `new` side, true_t: `already stored` side
 
         def incs(local):
             out = []
